@@ -49,6 +49,21 @@ pub fn analyze(trace: &[TraceEv], nthreads: usize) -> (Vec<String>, HbStats) {
         clocks[t][t] += 1;
         // loads through a protected guard are SeqCst whatever ordering was written
         let eff_load = if e.guarded == 1 { Some(Ordering::SeqCst) } else { e.ord };
+        // the raw control words (size_ctl, transfer_index, count, lock_state): their hooks do not
+        // report the ordering; Props/C15 `control_words_synchronise` proves on the regenerated
+        // site table that stores release, loads acquire and RMWs/CASes do both
+        let raw_word = !e.what.contains("::") && e.ord.is_none();
+        let mut e = e.clone();
+        if raw_word {
+            e.ord = Some(match e.kind {
+                Kind::Store => Ordering::Release,
+                Kind::Load => Ordering::Acquire,
+                _ => Ordering::SeqCst,
+            });
+            e.ord_fail = Some(Ordering::Relaxed);
+        }
+        let eff_load = if raw_word { e.ord } else { eff_load };
+        let e = &e;
         match e.kind {
             Kind::Alloc => {
                 alloc.insert(e.addr, (t, clocks[t].clone(), e.what));
@@ -91,6 +106,30 @@ pub fn analyze(trace: &[TraceEv], nthreads: usize) -> (Vec<String>, HbStats) {
                     if let Some(c) = loc.get(&e.addr).cloned() {
                         join(&mut clocks[t], &c);
                     }
+                }
+            }
+            Kind::Yield => {
+                // a `Yield` record announces an access that sits inside a condition and cannot carry
+                // a hook of its own; the orderings at these three sites are fixed in the source
+                // (SeqCst; the site table of Props/C15 checks that) and the access is:
+                //  * `lock_state` (a -> a + READER): the reader's CAS, performed iff no writer/waiter
+                //    bit is set in `a`; it succeeds iff the word still holds `a`;
+                //  * `size_ctl` (a -> b): `add_count`'s initiating CAS, performed iff `a >= 0`;
+                //  * `transfer_index`: a plain load.
+                let performed_rmw = match e.what {
+                    "lock_state" => (e.a & 3) == 0 && e.b == e.a.wrapping_add(4) && e.seen == e.a,
+                    "size_ctl" => (e.a as isize) >= 0 && e.seen == e.a,
+                    _ => false,
+                };
+                if e.what == "lock_state" || e.what == "size_ctl" || e.what == "transfer_index" {
+                    if let Some(c) = loc.get(&e.addr).cloned() {
+                        join(&mut clocks[t], &c);
+                    }
+                }
+                if performed_rmw {
+                    let mut c = loc.get(&e.addr).cloned().unwrap_or_else(|| vec![0; n]);
+                    join(&mut c, &clocks[t]);
+                    loc.insert(e.addr, c);
                 }
             }
             Kind::BeforeLock => {
